@@ -12,7 +12,9 @@
 (*      a satisfaction asked for with some signatures, preimages and lock  *)
 (*      times: produced only when the spending condition holds; when       *)
 (*      produced, the specification's own engine accepts the spend and the *)
-(*      witness stays within the predicted bounds                          *)
+(*      witness stays within the predicted bounds.  With ctx "tapscript"   *)
+(*      the script is a tapleaf (x-only keys, multi_a), the spend a taproot *)
+(*      script path and the signatures BIP340's                            *)
 (***************************************************************************)
 EXTENDS Miniscript, ScriptSigs, WireMore, EvBase
 PrevOf(e) == [k \in 1..Len(e.prevouts) |-> [value |-> WN(e.prevouts[k].value), spk |-> FromHex(e.prevouts[k].spk)]]
@@ -34,7 +36,7 @@ Check(e) ==
          /\ e.produced => /\ Verdict(e) = ""
                           /\ Len(e.stack) <= e.max_items
                           /\ SumLen([k \in 1..Len(e.stack) |-> FromHex(e.stack[k])]) <= e.max_size
-                          /\ ExecutedOps(e) <= e.max_ops
+                          /\ ("ctx" \in DOMAIN e /\ e.ctx = "tapscript") \/ ExecutedOps(e) <= e.max_ops     \* (BIP342 has no opcode count)
     \* the type the library gives an expression (base type and the modifiers z o n d u), or its refusal of an ill-typed one
     [] e.op = "type" -> LET ok == WellTyped(e.ast, e.ctx)  t == TypeOf(e.ast, e.ctx) IN
                           /\ e.valid = (ok /\ t.t = "B")          \* (a whole expression is a "B": parse refuses the others)
@@ -46,7 +48,7 @@ EventOK == i > 0 => Check(Trace[i])
 Diag == i > 0 => PrintT(<<"DIAG", i, <<Trace[i].op,
      CASE Trace[i].op = "compile" -> ToHex(Script(Trace[i].ast))
        [] Trace[i].op = "sat" -> <<ToHex(Script(Trace[i].ast)), Holds(Trace[i].ast, AvOf(Trace[i])),
-                                   IF Trace[i].produced THEN <<Verdict(Trace[i]), ExecutedOps(Trace[i])>> ELSE <<"-", 0>>>>
+                                   IF Trace[i].produced THEN <<Verdict(Trace[i]), IF "ctx" \in DOMAIN Trace[i] THEN 0 ELSE ExecutedOps(Trace[i])>> ELSE <<"-", 0>>>>
        [] Trace[i].op = "type" -> <<WellTyped(Trace[i].ast, Trace[i].ctx), TypeOf(Trace[i].ast, Trace[i].ctx)>>
        [] OTHER -> "-">>>>)
 =============================================================================
